@@ -232,7 +232,8 @@ ADDENDA = {
            'checked offsets. Every cycle of the call graph bounds its depth (depth counter with limit, cleared flag, '
            'descent of a data structure, or a listed reason): nesting in one source line cannot exhaust the stack; '
            'stores of a chained addressing mode into the fixed extension-word array lie behind a bound test, and in general '
-           'a store at a subscript that the surrounding loop steps up lies behind a comparison of that counter.',
+           'a store at a subscript that the surrounding loop steps up lies behind a comparison of that counter; the last '
+           'character of a string (s[strlen(s) - 1]) is addressed only where the string is known not to be empty.',
     'C04': ' Also: line bytes are written straight to the file only after the write-behind buffer was flushed.'
            ' A segment is marked used before its counter advances, also for lines that emit nothing.',
     'C05': ' Also: the measuring pass updates start/stop/granularity only for records the copy selects; the target offset of '
